@@ -15,6 +15,19 @@
 #include <time.h>
 #include <unistd.h>
 #include <sys/resource.h>
+#include <stdarg.h>
+#include <pthread.h>
+#if defined(__SANITIZE_ADDRESS__)
+#include <sanitizer/asan_interface.h>
+#include <sanitizer/lsan_interface.h>
+size_t __sanitizer_get_current_allocated_bytes(void);
+#endif
+#if defined(__has_feature)
+#if __has_feature(memory_sanitizer)
+#include <sanitizer/msan_interface.h>
+#define DRIVE_MSAN 1
+#endif
+#endif
 
 #include <cmr/env.h>
 #include <cmr/matrix.h>
@@ -36,8 +49,142 @@
 #include "seymour_internal.h"
 
 /* ---------- tokens of the current case line ---------- */
-static long long* tok = NULL;
-static size_t ntok = 0, memtok = 0, ptok = 0;
+static __thread long long* tok = NULL;
+static __thread size_t ntok = 0, memtok = 0, ptok = 0;
+
+/* ---------- instrumentation shared by C11 / C18 / C19 (nothing of this lives in /repo) ----------
+ * clock(), _CMRallocStack and _CMRfreeStack are intercepted at link time (-Wl,--wrap=...):
+ *  - clock(): deterministic; read number r returns r ticks, and from read number clk_jump_at on 2000 s more
+ *    (C18: "the timeout fires at the k-th clock read");
+ *  - stack allocator: optional event trace (kind, requested size, CMRgetStackUsage after the event) for the Coq
+ *    StackModel, optional filling of fresh chunks with a byte pattern (C19: results must not depend on what earlier
+ *    calls left in scratch memory), and under ASan poisoning of everything between live chunks (C11: exact bounds for
+ *    scratch arrays, which all live inside one malloc block per stack). */
+static __thread FILE* OUT = NULL;
+static __thread double g_tl = DBL_MAX;
+#define TL g_tl
+static __thread int tl_timeouts = 0;
+static __thread int tl_nonnull = 0;
+static __thread int input_modified = 0;
+
+static void note_rc(CMR_ERROR rc, int n, ...)
+{
+  if (rc != CMR_ERROR_TIMEOUT)
+    return;
+  ++tl_timeouts;
+  va_list ap;
+  va_start(ap, n);
+  for (int i = 0; i < n; ++i)
+  {
+    void* p = va_arg(ap, void*);
+    if (p)
+      tl_nonnull = 1;
+  }
+  va_end(ap);
+}
+
+static volatile long clk_reads = 0;
+static volatile long clk_jump_at = -1;
+
+clock_t __wrap_clock(void)
+{
+  long r = __sync_fetch_and_add(&clk_reads, 1);
+  if (clk_jump_at >= 0 && r >= clk_jump_at)
+    return (clock_t) 2000 * CLOCKS_PER_SEC + (clock_t) r;
+  return (clock_t) r;
+}
+
+typedef struct
+{
+  long long kind, size, usage;
+} STACK_EVENT;
+#define MAX_TRACE 20000
+static __thread STACK_EVENT* trace = NULL;
+static __thread size_t ntrace = 0;
+static __thread bool tracing = false, trace_overflow = false;
+static int poison_byte = -1;
+typedef struct
+{
+  char* ptr;
+  size_t size;
+} SHADOW;
+static __thread SHADOW* shadow = NULL;
+static __thread size_t nshadow = 0, memshadow = 0;
+
+CMR_ERROR __real__CMRallocStack(CMR* cmr, void** ptr, size_t size);
+CMR_ERROR __real__CMRfreeStack(CMR* cmr, void** ptr);
+
+static void trace_event(long long kind, size_t size, size_t usage)
+{
+  if (!tracing)
+    return;
+  if (!trace)
+    trace = malloc(MAX_TRACE * sizeof(STACK_EVENT));
+  if (ntrace >= MAX_TRACE)
+  {
+    trace_overflow = true;
+    return;
+  }
+  trace[ntrace].kind = kind;
+  trace[ntrace].size = (long long) size;
+  trace[ntrace].usage = (long long) usage;
+  ++ntrace;
+}
+
+CMR_ERROR __wrap__CMRallocStack(CMR* cmr, void** ptr, size_t size)
+{
+  CMR_ERROR e = __real__CMRallocStack(cmr, ptr, size);
+  if (!e && *ptr)
+  {
+    size_t real = size < 4 ? 4 : size;
+#if defined(__SANITIZE_ADDRESS__)
+    /* bookkeeping bytes in front of the chunk and the padding behind it are made inaccessible (env.c itself is
+     * compiled without ASan instrumentation); only the requested bytes are addressable */
+    {
+#if defined(NDEBUG)
+      size_t ovh = sizeof(void*);
+#else
+      size_t ovh = 2 * sizeof(void*);
+#endif
+      ASAN_POISON_MEMORY_REGION((char*) *ptr - ovh, ovh + (real + 7) / 8 * 8);
+      ASAN_UNPOISON_MEMORY_REGION(*ptr, size);
+    }
+#endif
+    if (poison_byte >= 0)
+      memset(*ptr, poison_byte, size);
+#if defined(DRIVE_MSAN)
+    __msan_poison(*ptr, size);
+#endif
+    if (nshadow == memshadow)
+    {
+      memshadow = memshadow ? 2 * memshadow : 256;
+      shadow = realloc(shadow, memshadow * sizeof(SHADOW));
+    }
+    shadow[nshadow].ptr = (char*) *ptr;
+    shadow[nshadow].size = (real + 7) / 8 * 8;
+    ++nshadow;
+  }
+  trace_event(1, size, CMRgetStackUsage(cmr));
+  return e;
+}
+
+CMR_ERROR __wrap__CMRfreeStack(CMR* cmr, void** ptr)
+{
+  char* p = ptr ? (char*) *ptr : NULL;
+  CMR_ERROR e = __real__CMRfreeStack(cmr, ptr);
+  if (nshadow > 0)
+  {
+    --nshadow;
+#if defined(__SANITIZE_ADDRESS__)
+    /* the freed chunk (LIFO: the most recent one) becomes inaccessible until it is handed out again */
+    ASAN_POISON_MEMORY_REGION(shadow[nshadow].ptr, shadow[nshadow].size);
+#endif
+    if (p != shadow[nshadow].ptr)
+      input_modified |= 2;   /* freed out of order */
+  }
+  trace_event(2, 0, CMRgetStackUsage(cmr));
+  return e;
+}
 
 static bool read_case(FILE* f)
 {
@@ -95,26 +242,26 @@ static bool more(void)
 /* ---------- record output ---------- */
 static void oi(long long x)
 {
-  printf(" %lld", x);
+  fprintf(OUT, " %lld", x);
 }
 
 static void osz(size_t x)
 {
   if (x == SIZE_MAX)
-    printf(" -1");
+    fprintf(OUT, " -1");
   else
-    printf(" %zu", x);
+    fprintf(OUT, " %zu", x);
 }
 
 static void rec_begin(void)
 {
-  printf("R");
+  fprintf(OUT, "R");
 }
 
 static void rec_end(void)
 {
-  printf("\n");
-  fflush(stdout);
+  fprintf(OUT, "\n");
+  fflush(OUT);
 }
 
 static void die_on(CMR_ERROR e, const char* what)
@@ -124,6 +271,83 @@ static void die_on(CMR_ERROR e, const char* what)
     fprintf(stderr, "drive: internal error %d in %s\n", (int) e, what);
     exit(4);
   }
+}
+
+/* ---------- C19: input matrices must not be modified ----------
+ * every matrix built from a case line is registered with a deep copy; when the handler releases it (CMRchrmatFree is
+ * routed through checked_chrmat_free below) it is compared bitwise with that copy. */
+typedef struct
+{
+  CMR_CHRMAT* mat;
+  size_t numRows, numColumns, numNonzeros;
+  size_t* rowSlice;
+  size_t* entryColumns;
+  char* entryValues;
+} SNAP;
+#define MAX_SNAP 16
+static __thread SNAP snaps[MAX_SNAP];
+static __thread size_t nsnaps = 0;
+
+static void snap_fill(SNAP* sn, CMR_CHRMAT* mat)
+{
+  sn->mat = mat;
+  sn->numRows = mat->numRows;
+  sn->numColumns = mat->numColumns;
+  sn->numNonzeros = mat->numNonzeros;
+  sn->rowSlice = malloc((mat->numRows + 1) * sizeof(size_t));
+  memcpy(sn->rowSlice, mat->rowSlice, (mat->numRows + 1) * sizeof(size_t));
+  sn->entryColumns = malloc((mat->numNonzeros + 1) * sizeof(size_t));
+  sn->entryValues = malloc(mat->numNonzeros + 1);
+  if (mat->numNonzeros)
+  {
+    memcpy(sn->entryColumns, mat->entryColumns, mat->numNonzeros * sizeof(size_t));
+    memcpy(sn->entryValues, mat->entryValues, mat->numNonzeros);
+  }
+}
+
+static void snap_release(SNAP* sn)
+{
+  free(sn->rowSlice);
+  free(sn->entryColumns);
+  free(sn->entryValues);
+  sn->mat = NULL;
+}
+
+static void snap_chrmat(CMR_CHRMAT* mat)
+{
+  if (nsnaps < MAX_SNAP)
+    snap_fill(&snaps[nsnaps++], mat);
+}
+
+/* the documented in-place signing was applied: take a new snapshot */
+static void resnap_chrmat(CMR_CHRMAT* mat)
+{
+  for (size_t i = 0; i < nsnaps; ++i)
+    if (snaps[i].mat == mat)
+    {
+      snap_release(&snaps[i]);
+      snap_fill(&snaps[i], mat);
+    }
+}
+
+static CMR_ERROR checked_chrmat_free(CMR* cmr, CMR_CHRMAT** pmat)
+{
+  if (pmat && *pmat)
+    for (size_t i = 0; i < nsnaps; ++i)
+      if (snaps[i].mat == *pmat)
+      {
+        CMR_CHRMAT* mat = *pmat;
+        SNAP* sn = &snaps[i];
+        if (mat->numRows != sn->numRows || mat->numColumns != sn->numColumns || mat->numNonzeros != sn->numNonzeros
+          || memcmp(mat->rowSlice, sn->rowSlice, (sn->numRows + 1) * sizeof(size_t))
+          || (sn->numNonzeros && (memcmp(mat->entryColumns, sn->entryColumns, sn->numNonzeros * sizeof(size_t))
+            || memcmp(mat->entryValues, sn->entryValues, sn->numNonzeros))))
+          input_modified |= 1;
+        snap_release(sn);
+        snaps[i] = snaps[--nsnaps];
+        break;
+      }
+  return CMRchrmatFree(cmr, pmat);
 }
 
 /* dense input "m n e11 ... emn" -> CMR_CHRMAT (entries are stored as given, truncated to char by the caller's choice) */
@@ -153,8 +377,11 @@ static CMR_CHRMAT* read_chrmat(CMR* cmr)
     }
   }
   mat->rowSlice[m] = e;
+  snap_chrmat(mat);
   return mat;
 }
+
+#define CMRchrmatFree(cmr, pmat) checked_chrmat_free(cmr, pmat)
 
 static CMR_INTMAT* read_intmat(CMR* cmr)
 {
@@ -298,7 +525,8 @@ static void do_ctu_test(CMR* cmr)
   CMR_CHRMAT* M = read_chrmat(cmr);
   bool isCTU = false;
   size_t r = SIZE_MAX - 1, c = SIZE_MAX - 1;
-  CMR_ERROR rc = CMRctuTest(cmr, M, &isCTU, &r, &c, NULL, NULL, DBL_MAX);
+  CMR_ERROR rc = CMRctuTest(cmr, M, &isCTU, &r, &c, NULL, NULL, TL);
+  note_rc(rc, 0);
   rec_begin();
   o_chr_dense(M);
   oi(rc);
@@ -327,7 +555,7 @@ static void do_ctu_test(CMR* cmr)
 /* cfg: algorithm ternary camionFirst naiveSubmatrix | stopWhenIrregular stopWhenNongraphic stopWhenNoncographic
  *      stopWhenNeitherGraphicNorCoGraphic seriesParallel planarityCheck directGraphicness preferGraphicness
  *      decomposeStrategy constructLeafGraphs constructAllGraphs | wantSubmatrix wantTree */
-static long long cfg[NCFG];
+static __thread long long cfg[NCFG];
 
 static void read_cfg(void)
 {
@@ -369,7 +597,7 @@ static void tu_params_from_cfg(CMR_TU_PARAMS* params)
 }
 
 /* case: cfg M     record: ncfg cfg M rc verdict(0/1, 2 = not written) hasSub [submatrix] */
-static bool tu_presign = false;
+static __thread bool tu_presign = false;
 
 static void do_tu(CMR* cmr)
 {
@@ -380,12 +608,14 @@ static void do_tu(CMR* cmr)
     /* api tu_signed: the input is replaced by its Camion signing first (the record echoes the signed matrix) */
     bool was;
     die_on(CMRcamionComputeSigns(cmr, M, &was, NULL, NULL, DBL_MAX), "CMRcamionComputeSigns");
+    resnap_chrmat(M);
   }
   CMR_TU_PARAMS params;
   tu_params_from_cfg(&params);
   unsigned char flag = 2;
   CMR_SUBMAT* sub = NULL;
-  CMR_ERROR rc = CMRtuTest(cmr, M, (bool*) &flag, NULL, cfg[15] ? &sub : NULL, &params, NULL, DBL_MAX);
+  CMR_ERROR rc = CMRtuTest(cmr, M, (bool*) &flag, NULL, cfg[15] ? &sub : NULL, &params, NULL, TL);
+  note_rc(rc, 1, sub);
   rec_begin();
   o_cfg();
   o_chr_dense(M);
@@ -418,7 +648,8 @@ static void do_regular(CMR* cmr)
   CMRregularParamsInit(&params);
   seymour_params_from_cfg(&params.seymour);
   unsigned char flag = 2;
-  CMR_ERROR rc = CMRregularTest(cmr, M, (bool*) &flag, NULL, NULL, &params, NULL, DBL_MAX);
+  CMR_ERROR rc = CMRregularTest(cmr, M, (bool*) &flag, NULL, NULL, &params, NULL, TL);
+  note_rc(rc, 0);
   rec_begin();
   o_cfg();
   o_chr_dense(M);
@@ -540,20 +771,21 @@ static void do_sp(CMR* cmr)
   {
     if (tern)
       rc = CMRspTestTernary(cmr, M, wv ? (bool*) &flag : NULL, reds, wr ? &numReds : NULL, wd ? &reduced : NULL,
-        wviol ? &viol : NULL, NULL, DBL_MAX);
+        wviol ? &viol : NULL, NULL, TL);
     else
       rc = CMRspTestBinary(cmr, M, wv ? (bool*) &flag : NULL, reds, wr ? &numReds : NULL, wd ? &reduced : NULL,
-        wviol ? &viol : NULL, NULL, DBL_MAX);
+        wviol ? &viol : NULL, NULL, TL);
   }
   else
   {
     if (tern)
       rc = CMRspDecomposeTernary(cmr, M, wv ? (bool*) &flag : NULL, reds, mr, wr ? &numReds : NULL, wd ? &reduced : NULL,
-        wviol ? &viol : NULL, ws ? &sepa : NULL, NULL, DBL_MAX);
+        wviol ? &viol : NULL, ws ? &sepa : NULL, NULL, TL);
     else
       rc = CMRspDecomposeBinary(cmr, M, wv ? (bool*) &flag : NULL, reds, mr, wr ? &numReds : NULL, wd ? &reduced : NULL,
-        wviol ? &viol : NULL, ws ? &sepa : NULL, NULL, DBL_MAX);
+        wviol ? &viol : NULL, ws ? &sepa : NULL, NULL, TL);
   }
+  note_rc(rc, 3, reduced, viol, sepa);
   rec_begin();
   oi(tern); oi(api); oi(maxred); oi(wv); oi(wr); oi(wd); oi(wviol); oi(ws);
   o_chr_dense(M);
@@ -630,7 +862,8 @@ static void do_balanced(CMR* cmr)
   params.seriesParallel = sp;
   unsigned char flag = 2;
   CMR_SUBMAT* sub = NULL;
-  CMR_ERROR rc = CMRbalancedTest(cmr, M, (bool*) &flag, ws ? &sub : NULL, &params, NULL, DBL_MAX);
+  CMR_ERROR rc = CMRbalancedTest(cmr, M, (bool*) &flag, ws ? &sub : NULL, &params, NULL, TL);
+  note_rc(rc, 1, sub);
   rec_begin();
   oi(alg); oi(sp); oi(ws);
   o_chr_dense(M);
@@ -678,9 +911,10 @@ static void do_graphic(CMR* cmr)
   CMR_GRAPH_EDGE* coforest = NULL;
   CMR_ERROR rc;
   if (tr)
-    rc = CMRgraphicTestTranspose(cmr, M, (bool*) &flag, &g, &forest, &coforest, NULL, NULL, DBL_MAX);
+    rc = CMRgraphicTestTranspose(cmr, M, (bool*) &flag, &g, &forest, &coforest, NULL, NULL, TL);
   else
-    rc = CMRgraphicTestMatrix(cmr, M, (bool*) &flag, &g, &forest, &coforest, NULL, NULL, DBL_MAX);
+    rc = CMRgraphicTestMatrix(cmr, M, (bool*) &flag, &g, &forest, &coforest, NULL, NULL, TL);
+  note_rc(rc, 3, g, forest, coforest);
   rec_begin();
   oi(tr);
   o_chr_dense(M);
@@ -726,9 +960,10 @@ static void do_network(CMR* cmr)
   CMR_SUBMAT* sub = NULL;
   CMR_ERROR rc;
   if (tr)
-    rc = CMRnetworkTestTranspose(cmr, M, (bool*) &flag, (bool*) &sflag, &g, &forest, &coforest, &reversed, &sub, NULL, DBL_MAX);
+    rc = CMRnetworkTestTranspose(cmr, M, (bool*) &flag, (bool*) &sflag, &g, &forest, &coforest, &reversed, &sub, NULL, TL);
   else
-    rc = CMRnetworkTestMatrix(cmr, M, (bool*) &flag, (bool*) &sflag, &g, &forest, &coforest, &reversed, &sub, NULL, DBL_MAX);
+    rc = CMRnetworkTestMatrix(cmr, M, (bool*) &flag, (bool*) &sflag, &g, &forest, &coforest, &reversed, &sub, NULL, TL);
+  note_rc(rc, 5, g, forest, coforest, reversed, sub);
   rec_begin();
   oi(tr);
   o_chr_dense(M);
@@ -879,14 +1114,16 @@ static void do_camion(CMR* cmr)
   o_chr_dense(M);
   unsigned char v = 2;
   CMR_SUBMAT* viol = NULL;
-  CMR_ERROR rc = CMRcamionTestSigns(cmr, M, (bool*) &v, &viol, NULL, DBL_MAX);
+  CMR_ERROR rc = CMRcamionTestSigns(cmr, M, (bool*) &v, &viol, NULL, TL);
+  note_rc(rc, 1, viol);
   oi(rc); oi(v); o_opt_submat(rc ? NULL : viol);
   if (viol)
     CMRsubmatFree(cmr, &viol);
   CMR_CHRMAT* S = NULL;
   CMRchrmatCopy(cmr, M, &S);
   unsigned char was = 2;
-  rc = CMRcamionComputeSigns(cmr, S, (bool*) &was, &viol, NULL, DBL_MAX);
+  rc = CMRcamionComputeSigns(cmr, S, (bool*) &was, &viol, NULL, TL);
+  note_rc(rc, 1, viol);
   oi(rc); oi(was);
   oi(rc ? 0 : 1);
   if (!rc)
@@ -895,12 +1132,14 @@ static void do_camion(CMR* cmr)
   if (viol)
     CMRsubmatFree(cmr, &viol);
   unsigned char v2 = 2;
-  rc = CMRcamionTestSigns(cmr, S, (bool*) &v2, NULL, NULL, DBL_MAX);
+  rc = CMRcamionTestSigns(cmr, S, (bool*) &v2, NULL, NULL, TL);
+  note_rc(rc, 0);
   oi(rc); oi(v2);
   CMR_CHRMAT* S2 = NULL;
   CMRchrmatCopy(cmr, S, &S2);
   unsigned char was2 = 2;
-  rc = CMRcamionComputeSigns(cmr, S2, (bool*) &was2, NULL, NULL, DBL_MAX);
+  rc = CMRcamionComputeSigns(cmr, S2, (bool*) &was2, NULL, NULL, TL);
+  note_rc(rc, 0);
   oi(rc); oi(was2);
   oi(rc ? 0 : 1);
   if (!rc)
@@ -1317,9 +1556,10 @@ static void do_tree(CMR* cmr)
   CMRregularParamsInit(&rp);
   seymour_params_from_cfg(&rp.seymour);
   if (entry == 0)
-    rc = CMRtuTest(cmr, M, (bool*) &flag, &root, NULL, &tup, NULL, DBL_MAX);
+    rc = CMRtuTest(cmr, M, (bool*) &flag, &root, NULL, &tup, NULL, TL);
   else
-    rc = CMRregularTest(cmr, M, (bool*) &flag, &root, NULL, &rp, NULL, DBL_MAX);
+    rc = CMRregularTest(cmr, M, (bool*) &flag, &root, NULL, &rp, NULL, TL);
+  note_rc(rc, 1, root);
   size_t nsteps = more() ? (size_t) nx() : 0;
   for (size_t step = 0; step <= nsteps; ++step)
   {
@@ -1359,13 +1599,14 @@ static void do_tree(CMR* cmr)
       tup.seymour.stopWhenNeitherGraphicNorCoGraphic = false;
       rp.seymour = tup.seymour;
       if (op == 1)
-        rc = (entry == 0 && CMRseymourIsTernary(root)) ? CMRtuCompleteDecomposition(cmr, target, &tup, NULL, DBL_MAX)
-          : CMRregularCompleteDecomposition(cmr, target, &rp, NULL, DBL_MAX);
+        rc = (entry == 0 && CMRseymourIsTernary(root)) ? CMRtuCompleteDecomposition(cmr, target, &tup, NULL, TL)
+          : CMRregularCompleteDecomposition(cmr, target, &rp, NULL, TL);
       else
       {
         CMR_SEYMOUR_NODE* nodes[1] = { target };
-        rc = CMRregularRefineDecomposition(cmr, 1, nodes, &rp, NULL, DBL_MAX);
+        rc = CMRregularRefineDecomposition(cmr, 1, nodes, &rp, NULL, TL);
       }
+      note_rc(rc, 0);
     }
   }
   rec_begin();
@@ -1575,31 +1816,340 @@ static void do_rel(CMR* cmr)
 /* ---------- dispatch ---------- */
 
 typedef void (*handler)(CMR*);
+static void do_tlimit(CMR* cmr);
+static void do_hist(CMR* cmr);
+static void do_threads(CMR* cmr);
 static struct
 {
   const char* name;
   handler fn;
 } apis[] = {
-  {"ctu_compl", do_ctu_compl},
-  {"ctu_test", do_ctu_test},
-  {"tu", do_tu},
-  {"tu_signed", do_tu_signed},
-  {"regular", do_regular},
-  {"pivot", do_pivot},
-  {"sp", do_sp},
-  {"balanced", do_balanced},
-  {"graphic", do_graphic},
-  {"network", do_network},
-  {"repmat", do_repmat},
-  {"camion", do_camion},
-  {"kcompose", do_kcompose},
-  {"kdecomp", do_kdecomp},
-  {"tree", do_tree},
-  {"textread", do_textread},
-  {"rel", do_rel},
-  {"textwrite", do_textwrite},
+  {"ctu_compl", do_ctu_compl},    /* 0 */
+  {"ctu_test", do_ctu_test},      /* 1 */
+  {"tu", do_tu},                  /* 2 */
+  {"tu_signed", do_tu_signed},    /* 3 */
+  {"regular", do_regular},        /* 4 */
+  {"pivot", do_pivot},            /* 5 */
+  {"sp", do_sp},                  /* 6 */
+  {"balanced", do_balanced},      /* 7 */
+  {"graphic", do_graphic},        /* 8 */
+  {"network", do_network},        /* 9 */
+  {"repmat", do_repmat},          /* 10 */
+  {"camion", do_camion},          /* 11 */
+  {"kcompose", do_kcompose},      /* 12 */
+  {"kdecomp", do_kdecomp},        /* 13 */
+  {"tree", do_tree},              /* 14 */
+  {"textread", do_textread},      /* 15 */
+  {"rel", do_rel},                /* 16 */
+  {"textwrite", do_textwrite},    /* 17 */
+  {"tlimit", do_tlimit},
+  {"hist", do_hist},
+  {"threads", do_threads},
   {NULL, NULL}
 };
+#define NUM_SUB_APIS 18
+
+/* ---------- running a handler with its record captured in memory ---------- */
+
+typedef struct
+{
+  char* text;          /* the record line (malloc'ed) */
+  size_t len;
+  int timeouts, nonnull, modified;
+  size_t usage;
+} CAPTURE;
+
+/* runs apis[sub].fn on `cmr` with the tokens [start, end) of the current case line */
+static void run_captured(CMR* cmr, int sub, size_t start, size_t end, CAPTURE* cap)
+{
+  size_t savedNtok = ntok;
+  FILE* savedOut = OUT;
+  cap->text = NULL;
+  cap->len = 0;
+  OUT = open_memstream(&cap->text, &cap->len);
+  ptok = start;
+  ntok = end;
+  tl_timeouts = 0;
+  tl_nonnull = 0;
+  input_modified = 0;
+  apis[sub].fn(cmr);
+  fclose(OUT);
+  OUT = savedOut;
+  ntok = savedNtok;
+  cap->timeouts = tl_timeouts;
+  cap->nonnull = tl_nonnull;
+  cap->modified = input_modified;
+  cap->usage = CMRgetStackUsage(cmr);
+}
+
+static bool same_capture(CAPTURE* a, CAPTURE* b)
+{
+  return a->len == b->len && !memcmp(a->text, b->text, a->len);
+}
+
+static size_t heap_bytes(void)
+{
+#if defined(__SANITIZE_ADDRESS__)
+  return __sanitizer_get_current_allocated_bytes();
+#else
+  return 0;
+#endif
+}
+
+/* ---------- C18: time limits ----------
+ * case: sub maxk rest-of-the-sub-api's-case
+ * The sub-api's handler is run (a) without limit on a fresh environment (reference record A, N clock reads), then for
+ * every k in 0..N (at most maxk of them, evenly spread) on a fresh environment (b) with a 1000 s limit and a clock that
+ * jumps by 2000 s at its k-th read (record B) and (c) again without limit on the same environment (record C).
+ * record: sub N nk (k timeouts nonnull sameB sameC usageB usageC leaked modified)*nk */
+static void do_tlimit(CMR* cmr)
+{
+  int sub = (int) nx();
+  long long maxk = nx();
+  size_t start = ptok, end = ntok;
+  if (sub < 0 || sub >= NUM_SUB_APIS)
+    exit(3);
+  CAPTURE A;
+  clk_reads = 0;
+  clk_jump_at = -1;
+  g_tl = DBL_MAX;
+  run_captured(cmr, sub, start, end, &A);
+  long N = clk_reads;
+  long nk = N + 1;
+  if (maxk > 0 && nk > maxk)
+    nk = maxk;
+  rec_begin();
+  oi(sub);
+  oi(N);
+  oi(nk);
+  for (long j = 0; j < nk; ++j)
+  {
+    long k = (nk == N + 1) ? j : (long) ((double) j * N / (nk - 1));
+    size_t heap0 = heap_bytes();
+    CMR* env = NULL;
+    die_on(CMRcreateEnvironment(&env), "CMRcreateEnvironment");
+    nshadow = 0;
+    CAPTURE B, C;
+    clk_reads = 0;
+    clk_jump_at = k;
+    g_tl = 1000.0;
+    run_captured(env, sub, start, end, &B);
+    clk_jump_at = -1;
+    g_tl = DBL_MAX;
+    run_captured(env, sub, start, end, &C);
+    CMRfreeEnvironment(&env);
+    int sameB = same_capture(&A, &B), sameC = same_capture(&A, &C);
+    oi(k);
+    oi(B.timeouts);
+    oi(B.nonnull);
+    oi(sameB);
+    oi(sameC);
+    osz(B.usage);
+    osz(C.usage);
+    int modified = B.modified | C.modified;
+    free(B.text);
+    free(C.text);
+    size_t heap1 = heap_bytes();
+    oi(heap1 > heap0 ? (long long) (heap1 - heap0) : 0);
+    oi(modified);
+  }
+  rec_end();
+  free(A.text);
+  ptok = end;
+}
+
+/* ---------- C19: histories on one environment ----------
+ * case: ncalls (sub k len tokens..)*ncalls
+ * Every call is run (a) alone on a fresh environment (reference), (b) alone on fresh environments with fresh scratch
+ * chunks filled with 0x00 and with 0xff instead of the 0xa5 default, and (c) in sequence, each call twice, on one
+ * shared environment; a call with k >= 0 is run with a 1000 s limit and the clock jumping at read k (its own result
+ * is then not compared, but it is part of the history of the later ones).
+ * record: ncalls (sub k sameHist sameRepeat samePoison00 samePoisonFF modified usageAfter)*ncalls */
+#define MAX_CALLS 64
+static void do_hist(CMR* cmr)
+{
+  size_t ncalls = (size_t) nx();
+  if (ncalls > MAX_CALLS)
+    exit(3);
+  int sub[MAX_CALLS];
+  long long kk[MAX_CALLS];
+  size_t st[MAX_CALLS], en[MAX_CALLS];
+  for (size_t i = 0; i < ncalls; ++i)
+  {
+    sub[i] = (int) nx();
+    kk[i] = nx();
+    size_t len = (size_t) nx();
+    st[i] = ptok;
+    en[i] = ptok + len;
+    ptok += len;
+    if (sub[i] < 0 || sub[i] >= NUM_SUB_APIS || en[i] > ntok)
+      exit(3);
+  }
+  size_t endAll = ptok;
+  CAPTURE A[MAX_CALLS];
+  int samePoison[2][MAX_CALLS];
+  int savedPoison = poison_byte;
+  g_tl = DBL_MAX;
+  clk_jump_at = -1;
+  for (size_t i = 0; i < ncalls; ++i)
+  {
+    CMR* env = NULL;
+    die_on(CMRcreateEnvironment(&env), "CMRcreateEnvironment");
+    nshadow = 0;
+    poison_byte = 0xa5;
+    run_captured(env, sub[i], st[i], en[i], &A[i]);
+    CMRfreeEnvironment(&env);
+    for (int p = 0; p < 2; ++p)
+    {
+      CAPTURE P;
+      die_on(CMRcreateEnvironment(&env), "CMRcreateEnvironment");
+      nshadow = 0;
+      poison_byte = p ? 0xff : 0x00;
+      run_captured(env, sub[i], st[i], en[i], &P);
+      CMRfreeEnvironment(&env);
+      samePoison[p][i] = same_capture(&A[i], &P);
+      free(P.text);
+    }
+  }
+  poison_byte = 0xa5;
+  nshadow = 0;
+  rec_begin();
+  osz(ncalls);
+  for (size_t i = 0; i < ncalls; ++i)
+  {
+    CAPTURE H1, H2;
+    if (kk[i] >= 0)
+    {
+      clk_reads = 0;
+      clk_jump_at = kk[i];
+      g_tl = 1000.0;
+    }
+    run_captured(cmr, sub[i], st[i], en[i], &H1);
+    clk_jump_at = -1;
+    g_tl = DBL_MAX;
+    int timedOut = H1.timeouts > 0;
+    run_captured(cmr, sub[i], st[i], en[i], &H2);
+    oi(sub[i]);
+    oi(kk[i]);
+    oi(timedOut ? 1 : same_capture(&A[i], &H1));
+    oi(same_capture(&A[i], &H2));
+    oi(samePoison[0][i]);
+    oi(samePoison[1][i]);
+    oi(A[i].modified | H1.modified | H2.modified);
+    osz(H2.usage);
+    free(H1.text);
+    free(H2.text);
+  }
+  rec_end();
+  for (size_t i = 0; i < ncalls; ++i)
+    free(A[i].text);
+  poison_byte = savedPoison;
+  ptok = endAll;
+}
+
+/* ---------- C19: concurrent environments ----------
+ * case: nthreads ncalls (sub k len tokens..)*ncalls      (k is ignored)
+ * reference records are computed sequentially, then nthreads threads each run all calls (thread t starts at call t)
+ * on an environment of their own; record: nthreads ncalls totalRuns mismatches modified */
+typedef struct
+{
+  size_t ncalls, first;
+  int* sub;
+  size_t* st;
+  size_t* en;
+  long long* tokens;
+  size_t numTokens;
+  CAPTURE* ref;
+  int mismatches, modified;
+} THREAD_JOB;
+
+static void* thread_main(void* arg)
+{
+  THREAD_JOB* job = (THREAD_JOB*) arg;
+  tok = job->tokens;
+  ntok = job->numTokens;
+  OUT = stdout;
+  g_tl = DBL_MAX;
+  CMR* env = NULL;
+  if (CMRcreateEnvironment(&env))
+    return NULL;
+  nshadow = 0;
+  for (size_t j = 0; j < job->ncalls; ++j)
+  {
+    size_t i = (job->first + j) % job->ncalls;
+    CAPTURE T;
+    run_captured(env, job->sub[i], job->st[i], job->en[i], &T);
+    if (!same_capture(&job->ref[i], &T))
+      ++job->mismatches;
+    job->modified |= T.modified;
+    free(T.text);
+  }
+  CMRfreeEnvironment(&env);
+  free(shadow);
+  shadow = NULL;
+  memshadow = 0;
+  return NULL;
+}
+
+static void do_threads(CMR* cmr)
+{
+  size_t nthreads = (size_t) nx();
+  size_t ncalls = (size_t) nx();
+  if (ncalls > MAX_CALLS || nthreads > 32)
+    exit(3);
+  int sub[MAX_CALLS];
+  size_t st[MAX_CALLS], en[MAX_CALLS];
+  for (size_t i = 0; i < ncalls; ++i)
+  {
+    sub[i] = (int) nx();
+    nx();
+    size_t len = (size_t) nx();
+    st[i] = ptok;
+    en[i] = ptok + len;
+    ptok += len;
+    if (sub[i] < 0 || sub[i] >= NUM_SUB_APIS || en[i] > ntok)
+      exit(3);
+  }
+  size_t endAll = ptok;
+  CAPTURE A[MAX_CALLS];
+  clk_jump_at = -1;
+  g_tl = DBL_MAX;
+  for (size_t i = 0; i < ncalls; ++i)
+    run_captured(cmr, sub[i], st[i], en[i], &A[i]);
+  pthread_t th[32];
+  THREAD_JOB jobs[32];
+  for (size_t t = 0; t < nthreads; ++t)
+  {
+    jobs[t].ncalls = ncalls;
+    jobs[t].first = t;
+    jobs[t].sub = sub;
+    jobs[t].st = st;
+    jobs[t].en = en;
+    jobs[t].tokens = tok;
+    jobs[t].numTokens = ntok;
+    jobs[t].ref = A;
+    jobs[t].mismatches = 0;
+    jobs[t].modified = 0;
+    pthread_create(&th[t], NULL, thread_main, &jobs[t]);
+  }
+  int mism = 0, modified = 0;
+  for (size_t t = 0; t < nthreads; ++t)
+  {
+    pthread_join(th[t], NULL);
+    mism += jobs[t].mismatches;
+    modified |= jobs[t].modified;
+  }
+  rec_begin();
+  osz(nthreads);
+  osz(ncalls);
+  osz(nthreads * ncalls);
+  oi(mism);
+  oi(modified);
+  rec_end();
+  for (size_t i = 0; i < ncalls; ++i)
+    free(A[i].text);
+  ptok = endAll;
+}
 
 int main(int argc, char** argv)
 {
@@ -1608,6 +2158,7 @@ int main(int argc, char** argv)
     fprintf(stderr, "usage: drive <api>\n");
     return 2;
   }
+  OUT = stdout;
   handler fn = NULL;
   for (int i = 0; apis[i].name; ++i)
     if (!strcmp(apis[i].name, argv[1]))
@@ -1620,7 +2171,7 @@ int main(int argc, char** argv)
   /* per-case watchdog: a case that runs longer than DRIVE_CASE_SECONDS (default 20) or needs more than
    * DRIVE_MEM_MB (default 2048, non-sanitized builds only) kills the process; the caller records it as "no result". */
   unsigned caseSeconds = getenv("DRIVE_CASE_SECONDS") ? atoi(getenv("DRIVE_CASE_SECONDS")) : 20;
-#if !defined(__SANITIZE_ADDRESS__)
+#if !defined(__SANITIZE_ADDRESS__) && !defined(DRIVE_MSAN) && !defined(__SANITIZE_THREAD__)
   {
     struct rlimit rl;
     size_t mb = getenv("DRIVE_MEM_MB") ? atol(getenv("DRIVE_MEM_MB")) : 2048;
@@ -1628,13 +2179,68 @@ int main(int argc, char** argv)
     setrlimit(RLIMIT_AS, &rl);
   }
 #endif
+  bool wantTrace = getenv("DRIVE_STACK_TRACE") != NULL;
+  if (getenv("DRIVE_POISON"))
+    poison_byte = atoi(getenv("DRIVE_POISON"));
+  /* everything the harness itself keeps across cases is allocated before heap accounting starts */
+  static char outbuf[1 << 16];
+  setvbuf(stdout, outbuf, _IOFBF, sizeof(outbuf));
+  trace = malloc(MAX_TRACE * sizeof(STACK_EVENT));
+  memshadow = 1 << 16;
+  shadow = malloc(memshadow * sizeof(SHADOW));
+  bool leakCheck = strcmp(argv[1], "threads") != 0;   /* thread stacks and TLS blocks are cached by libc */
   while (read_case(stdin))
   {
     alarm(caseSeconds);
+    size_t heap0 = heap_bytes();
     CMR* cmr = NULL;
     die_on(CMRcreateEnvironment(&cmr), "CMRcreateEnvironment");
+    nshadow = 0;
+    ntrace = 0;
+    trace_overflow = false;
+    tracing = wantTrace;
+    input_modified = 0;
     fn(cmr);
+    tracing = false;
+    size_t usage = CMRgetStackUsage(cmr);
     CMRfreeEnvironment(&cmr);
+    size_t heap1 = heap_bytes();
+    /* flag lines follow the record of the case they belong to:
+     *  S u   scratch stack not back at its pre-call level (u bytes in use when the handler returned)
+     *  M f   an input matrix was modified (1) / stack chunks were freed out of order (2)
+     *  L b   b bytes of heap memory are still allocated after everything was released (ASan builds)
+     *  T ..  the stack event trace (DRIVE_STACK_TRACE): dbg n (kind size usage)*n, or "T overflow" */
+    if (usage)
+      printf("S %zu\n", usage);
+    if (input_modified)
+      printf("M %d\n", input_modified);
+    if (wantTrace)
+    {
+      if (trace_overflow)
+        printf("T overflow\n");
+      else
+      {
+#if defined(NDEBUG)
+        printf("T 0 %zu", ntrace);
+#else
+        printf("T 1 %zu", ntrace);
+#endif
+        for (size_t i = 0; i < ntrace; ++i)
+          printf(" %lld %lld %lld", trace[i].kind, trace[i].size, trace[i].usage);
+        printf("\n");
+      }
+    }
+    if (leakCheck && heap1 > heap0)
+    {
+      printf("L %zu\n", heap1 - heap0);
+      fflush(stdout);
+#if defined(__SANITIZE_ADDRESS__)
+      /* print where the lost blocks were allocated, then restart (LeakSanitizer reports are cumulative) */
+      __lsan_do_recoverable_leak_check();
+      _exit(7);
+#endif
+    }
+    fflush(stdout);
   }
   return 0;
 }
